@@ -2,7 +2,6 @@
 
 package certificate
 
-import "sync"
 
 func zz06Count(s SingleCommits, c *SingleCommit) int {
 	k := 0
@@ -42,7 +41,7 @@ func zzH_C06_pool_select_upgrade_cleanup(t *zzT) {
 		all = append(all, c)
 		return c
 	}
-	p := &Pool{nonGossiped: SingleCommits{}, gossiped: SingleCommits{}, mutex: new(sync.Mutex)}
+	p := NewPool()
 	for i := 0; i < g; i++ {
 		p.gossiped = append(p.gossiped, mk(i))
 	}
